@@ -35,6 +35,7 @@ const stagesDoc = `{"openapi":"3.0.3","info":{"title":"t","version":"1"},
 
 // the same operations with a declared default error response (convenient errors)
 const stagesErrDoc = `{"openapi":"3.0.3","info":{"title":"t","version":"1"},
+"security":[{"K":[]}],
 "paths":{
  "/e/{id}":{"post":{"operationId":"postE",
    "parameters":[{"name":"id","in":"path","required":true,"schema":{"type":"integer"}}],
@@ -42,7 +43,7 @@ const stagesErrDoc = `{"openapi":"3.0.3","info":{"title":"t","version":"1"},
    "responses":{"200":{"description":"ok","content":{"application/json":{"schema":{"$ref":"#/components/schemas/Item"}}}},
                 "default":{"description":"err","content":{"application/json":{"schema":{"$ref":"#/components/schemas/Error"}}}}}}}
 },
-"components":{"schemas":{
+"components":{"securitySchemes":{"K":{"type":"apiKey","in":"header","name":"X-Key"}},"schemas":{
   "Item":{"type":"object","required":["name"],"properties":{"name":{"type":"string"}}},
   "Error":{"type":"object","required":["code","message"],"properties":{"code":{"type":"integer"},"message":{"type":"string"}}}}}}`
 
@@ -300,7 +301,44 @@ func bodyStr(b *string) string {
 // handler failures surface as the spec's error response or 500
 func c15Errors(r *lp.Run, drv *gc.Driver, pkg string) {
 	b := `{"name":"x"}`
-	base := stReq{method: "POST", path: "/e/1", header: map[string][]string{"Content-Type": {"application/json"}}, body: &b, stage: "handler"}
+	base := stReq{method: "POST", path: "/e/1", header: map[string][]string{"Content-Type": {"application/json"}, "X-Key": {"k"}}, body: &b, stage: "handler"}
+	// stage failures with convenient errors active: security goes through NewError + encodeErrorResponse
+	for _, sc := range []struct {
+		name   string
+		mut    func(q *stReq)
+		status string
+	}{
+		{"no credential", func(q *stReq) { delete(q.header, "X-Key") }, "401"},
+		{"credential rejected", func(q *stReq) { q.script = map[string]any{"security": map[string]string{"K": "reject"}} }, "401"},
+		{"credential skipped", func(q *stReq) { q.script = map[string]any{"security": map[string]string{"K": "skip"}} }, "401"},
+		{"malformed parameter", func(q *stReq) { q.path = "/e/abc" }, "400"},
+		{"malformed body", func(q *stReq) { s := "{"; q.body = &s }, "400"},
+		{"wrong content type", func(q *stReq) { q.header["Content-Type"] = []string{"text/plain"} }, "415"},
+	} {
+		q := base
+		q.header = map[string][]string{}
+		for k, v := range base.header {
+			q.header[k] = v
+		}
+		sc.mut(&q)
+		q.hout = "ok"
+		ans := c15Do(drv, pkg, q, map[string]any{"$type": "*Item", "$value": map[string]any{"Name": "x"}})
+		srv, _ := ans["server"].(map[string]any)
+		handler := srv != nil && fmt.Sprint(srv["handler_called"]) != "0"
+		r.Count("c15err stage "+sc.name, "convenient-errors-stage:"+sc.name, true)
+		r.PropCheck()
+		in := map[string]any{"case": sc.name, "spec": "default error response declared (convenient errors), global security"}
+		switch {
+		case ans["panic"] != nil:
+			r.Fail(lp.PropFail{Property: "C15", What: "the server panics", Input: in, Observed: fmt.Sprint(ans["panic"]), Expected: "a response"})
+		case fmt.Sprint(ans["write_headers"]) != "1":
+			r.Fail(lp.PropFail{Property: "C15", What: "not exactly one response is written", Input: in, Observed: fmt.Sprint(ans["write_headers"], " status ", ans["status"], " handler invoked: ", handler), Expected: "1"})
+		case handler:
+			r.Fail(lp.PropFail{Property: "C15", What: "a request that fails before the handler reaches the handler", Input: in, Observed: fmt.Sprint("status ", ans["status"], ", handler invoked"), Expected: sc.status + ", handler not invoked"})
+		case fmt.Sprint(ans["status"]) != sc.status:
+			r.Fail(lp.PropFail{Property: "C15", What: "wrong status for a stage failure", Input: in, Observed: fmt.Sprint(ans["status"]), Expected: sc.status})
+		}
+	}
 	type ec struct {
 		name   string
 		script map[string]any
